@@ -11,6 +11,7 @@ from __future__ import annotations
 
 import json
 import random
+from fractions import Fraction as F
 
 from ..core import Ctx, digest
 from ..forkpool import prepare_imports, run_cases
@@ -31,13 +32,16 @@ def build_netlist(emb, mods, tags=None):
     for i, (kind, rects) in enumerate(mods):
         name = f"N{i + 1}"
         rl = [emb.rect(r) for r in rects]
-        if kind == "soft" and str(i) in tags:
-            rl = [r + [tags[str(i)]] for r in rl]
+        if kind == "soft" and str(i) in tags and tags[str(i)].lstrip("+"):
+            rl = [r + [tags[str(i)].lstrip("+")] for r in rl]
         if kind == "softsq":
             x1, y1, x2, y2 = rects[0]
             out[name] = {"area": emb.area((x2 - x1) * (y2 - y1)), "center": [emb.coord((x1 + x2) / 2), emb.coord((y1 + y2) / 2)]}
         elif kind == "soft":
-            out[name] = {"area": emb.area(sum((r[2] - r[0]) * (r[3] - r[1]) for r in rects)), "rectangles": rl}
+            # (tags value "+R": the declared area is 9/4 of what the rectangles cover -- an intermediate floorplan; the
+            #  statement speaks of the area covered by the module's rectangles, whatever area it declares)
+            k = 9 if str(i) in tags and tags[str(i)].startswith("+") else 4
+            out[name] = {"area": emb.area(F(k, 4) * sum((r[2] - r[0]) * (r[3] - r[1]) for r in rects)), "rectangles": rl}
         elif kind == "hard":
             out[name] = {"hard": True, "rectangles": rl}
         elif kind == "fixed":
@@ -77,7 +81,21 @@ def run_case(case):
             if regions:
                 ddict["regions"] = regions
             try:
-                net = Netlist(build_netlist(emb, case["mods"], case.get("tags")))
+                tree = build_netlist(emb, case["mods"], case.get("tags"))
+                life = case.get("life")
+                if life == "assign":
+                    # the modules are loaded somewhere else and brought to their place through the API before the die exists
+                    target = {n: [list(r) for r in m["rectangles"]] for n, m in tree["Modules"].items() if "rectangles" in m}
+                    for m in tree["Modules"].values():
+                        if "rectangles" in m:
+                            m["rectangles"] = [[r[0] + r[2], r[1] + 2 * r[3]] + r[2:] for r in m["rectangles"]]
+                    net = Netlist(tree)
+                    net.assign_rectangles(target)
+                elif life == "twice":
+                    Netlist(tree)            # the same description object serves two netlists; the second one is used
+                    net = Netlist(tree)
+                else:
+                    net = Netlist(tree)
                 for j in case.get("release", []):
                     # a fixed module released through the API before the die is built: it is then an ordinary hard module
                     net.get_module(f"N{j + 1}").is_fixed = False
@@ -165,9 +183,14 @@ def to_case(g, rng, embs=ORIGIN0):
 
 def add_tags(case, rng):
     """some soft modules get their rectangles assigned to a named region (that of the die's specialised cells, or another)"""
-    tags = {str(i): rng.choice(["R1", "R2", "R2"]) for i, m in enumerate(case["mods"]) if m[0] == "soft" and rng.random() < 0.3}
+    tags = {str(i): rng.choice(["R1", "R2", "R2", "+", "+", "+R2"]) for i, m in enumerate(case["mods"]) if m[0] == "soft" and rng.random() < 0.35}
     if tags:
         case["tags"] = tags
+    u = rng.random()
+    if u < 0.15:
+        case["life"] = "assign"
+    elif u < 0.3:
+        case["life"] = "twice"
     return case
 
 
@@ -273,8 +296,9 @@ def decide(ctx: Ctx, cases):
             feats["after_move"] = owners[key]["moved"]
             feats["released_fixed"] = bool(c.get("release"))
             feats["tagged_rectangles"] = bool(c.get("tags"))
+            feats["life"] = c.get("life") or ""
             ctx.violation(clause, {**{k: c[k] for k in ("dw", "dh", "regs", "mods", "zero")}, "pre": c.get("pre"),
-                                   "move": c.get("move"), "release": c.get("release"), "tags": c.get("tags"),
+                                   "move": c.get("move"), "release": c.get("release"), "tags": c.get("tags"), "life": c.get("life"),
                                    "embeddings": owners[key]["embs"]},
                           {"observed": {k: t[k] for k in ("ok", "refinable", "fixedcells", "obs")}, "why": owners[key]["why"]}, feats)
     for t in list(traces.values())[:2]:
@@ -286,7 +310,7 @@ def run(ctx: Ctx) -> int:
         rec = json.load(open(ctx.replay))["case"]
         case = {k: rec[k] for k in ("dw", "dh", "regs", "mods", "zero")}
         case["embs"] = rec.get("embeddings", ORIGIN0)
-        for k in ("pre", "move", "release", "tags"):
+        for k in ("pre", "move", "release", "tags", "life"):
             if rec.get(k):
                 case[k] = rec[k]
         decide(ctx, [case])
